@@ -501,6 +501,11 @@ CRAFTED = {
                 {"k": "exec", "xs": ["p1"], "o": "p2", "f": "inc", "slow": 0, "targets": [0, 1]},
                 {"k": "gather", "x": "p2", "o": "p3"}],
         "outs": ["p3"], "fail": {"op": 2, "tag": "0.2", "mode": "cmd_status"}, "cls": "fail"},
+    "fail_schedule_raises_in_loop_body_later_iteration": {
+        # instance 0.0 (1 iteration) completes and emits its output; scheduling of the third job of instance 0.1 fails
+        "ops": [{"k": "src", "o": "s0", "v": [1, 4]}, {"k": "scatter", "x": "s0", "o": "p1"},
+                {"k": "loop", "x": "p1", "o": "p2", "p": "pos", "f": "dec", "body": "exec"}],
+        "outs": ["p2"], "fail": {"op": 2, "tag": "0.1.2", "mode": "sched_raise"}, "cls": "fail"},
     "loop_completed_input": {
         "ops": [{"k": "src", "o": "s0", "v": 2}, {"k": "loop", "x": "s0", "o": "p1", "p": "pos", "f": "dec", "body": "exec"}],
         "outs": ["p1"], "fail": None, "cls": "plain"},
